@@ -98,6 +98,19 @@ def handleC17 (toks : List String) : String :=
       | none => pure (err "value")
       | some r => pure (toString r.length ++ " " ++
           " ".intercalate (r.map fun e => showRat e.1 ++ " " ++ showV e.2))) rest
+  | "disregcall" :: rest => run (do
+      -- disregistry(basesystem, dislsystem, m, n, planepos) from the two systems:
+      -- atol rtol CELL0 CELL1 n0 POS0 n1 POS1 m(3) n(3) planepos(3) -> profile | err:value (atom counts, plane selection)
+      let atol ← pRat; let rtol ← pRat
+      let c0 ← pCell; let c1 ← pCell; let n0 ← pNat; let p0 ← pPos n0; let n1 ← pNat; let p1 ← pPos n1
+      let mv ← pMany pRat 3; let nv ← pMany pRat 3; let pp ← pMany pRat 3; pEnd
+      let v3 := fun (l : List Rat) => (⟨l.getD 0 0, l.getD 1 0, l.getD 2 0⟩ : V3 Rat)
+      match disregistryCall atol rtol n0 n1 c0 c1 (fn p0) (fn p1) (v3 mv) (v3 nv) (v3 pp) with
+      | .error .value => pure (err "value")
+      | .error .assert => pure (err "assert")
+      | .ok none => pure (err "value")
+      | .ok (some r) => pure (toString r.length ++ " " ++
+          " ".intercalate (r.map fun e => showRat e.1 ++ " " ++ showV e.2))) rest
   | "strain" :: rest => run (do
       let cosMax ← pRat
       let c0 ← pCell; let c1 ← pCell; let n ← pNat; let p0 ← pPos n; let p1 ← pPos n
